@@ -138,6 +138,8 @@ func (a *fpAPI) operand(r *lib.Rng) []byte {
 		return lib.Clone(a.specials[r.Intn(len(a.specials))])
 	case 2:
 		return r.Bytes(a.size)
+	case 3, 4:
+		return repLimbBytes(r, a.size, a.c[r.Intn(len(a.c))], 0xff)
 	default:
 		return r.EdgeBytes(a.size, a.c[r.Intn(len(a.c))])
 	}
@@ -402,7 +404,7 @@ func TestVerifTranscriptField(t *testing.T) {
 		"c14/Field/fp25519:invsqrt-qr", "c14/Field/fp25519:invsqrt-nonqr",
 		"c14/Field/fp448:invsqrt-qr", "c14/Field/fp448:invsqrt-nonqr",
 		"c14/Field/fp25519:iszero-true", "c14/Field/fp448:iszero-true")
-	ks := fp25519API.kinds(600, 75000)
-	ks = append(ks, fp448API.kinds(600, 75000)...)
+	ks := fp25519API.kinds(1500, 75000)
+	ks = append(ks, fp448API.kinds(1500, 75000)...)
 	runArea(t, "Field", ks)
 }
